@@ -18,7 +18,8 @@ import time
 from . import env, evidence, findings, scenarios
 from .scenarios import T, E, H, C
 
-NEXT_KINDS = ["none", "same", "prev", "neg", "frac", "float", "str"]
+NEXT_KINDS = ["none", "same", "prev", "neg", "frac", "float", "str", "npfrac"]
+LOCAL_ONLY_KINDS = ("npfrac",)      # numpy scalars cannot be sent over a (JSON) connection
 TIME_KINDS = ["prev", "neg"]
 
 C13_TOPOS = {
@@ -452,6 +453,8 @@ def check(prop, tier):
     if prop == "C13":
         for name, scen, fault in c13_cases(tier):
             for tr in (("local", "mem") if tier == "thorough" else ("local",)):
+                if tr == "mem" and fault["kind"] in LOCAL_ONLY_KINDS:
+                    continue
                 jobs.append((prop, name + "/" + tr, scen, fault,
                              dict(lazy=True, cache=True, transport=tr),
                              1, 2500))
@@ -464,7 +467,7 @@ def check(prop, tier):
                              dict(lazy=True, cache=True, debug=True, transport="local"), 0, 1500))
         if tier == "quick":
             for name, scen, fault in c13_cases(tier):
-                if fault["k"] == 0:
+                if fault["k"] == 0 and fault["kind"] not in LOCAL_ONLY_KINDS:
                     jobs.append((prop, name + "/mem", scen, fault,
                                  dict(lazy=True, cache=True, transport="mem"), 0, 1500))
     else:
